@@ -342,7 +342,13 @@ fn s_bfs(ctx: &mut Ctx, p: &SParams, depth: usize) {
 fn s_replay(ctx: &mut Ctx, p: &SParams, acts: &[SAct]) {
     let case0 = || json!({"Sparse": {"params": p, "acts": []}});
     let mut b = match guard(|| s_new(p)) {
-        Ok(Ok(b)) => b,
+        Ok(Ok(b)) => {
+            if !p.multiset && p.capacity > p.universe {
+                ctx.require(|| "SparseBuilder.new[ones>universe]".to_string(), false, case0, || json!({"observed": "Ok", "expected": "Err"}));
+                return;
+            }
+            b
+        }
         Ok(Err(e)) => {
             ctx.require(|| "SparseBuilder.new".to_string(), !p.multiset && p.capacity > p.universe, case0, || json!({"observed": format!("Err({})", e), "expected": "Ok"}));
             return;
